@@ -82,6 +82,11 @@ checks = {
          "bounded exhaustive exploration; restore(T) equals the state of a TXID replicated strictly before T, monotone in T, exact when level-0 is complete, fails before the first backup",
          "replication time = LTX header timestamp read back from archived files; file-creating operations kept >=3ms apart by the driver; file replica (CreatedAt = mtime)",
          "DESIGN.md §3 C15"),
+ "C16": (E1, "model_checking",
+         "explicit-state search over primary histories with the follower opened and polled at every position (one follow-loop iteration per FPOLL), plus exhaustive kill-point enumeration of the real follow loop in a traced worker process",
+         "bounded exhaustive exploration: after every poll the masked follower equals the restore of its sidecar TXID, sidecar monotone, fixpoint equals restore(latest); every counted syscall of the follower process is a kill point followed by replica advance and resume",
+         "follow loop iteration driven through a hook mirroring the loop body; kill indices of the ticker-driven loop are not perfectly reproducible (each K run once, problems reported only if the same K reproduces them)",
+         "DESIGN.md §3 C16"),
  "C19": (E5, "exploration",
          "exhaustive enumeration of legacy 0.3.x layouts generated from real histories (segment splits, snapshot placements, single removals, timestamps, mixed formats) against the generating history's ledger",
          "every layout x removal x timestamp is restored with the real code and compared byte-for-byte with the expected state (or an error is required)",
